@@ -53,6 +53,10 @@ def gen_poly(rng, cls, nrow, ncol):
 
 
 def poly_eval(p, r, c):
+    if p.get('patch') and r == int(r) and c == int(c):
+        for pr, pc, pv in p['patch']:
+            if pr == r and pc == c:
+                return pv
     s = 0.0
     for i, j, m in p['terms']:
         s += m * (r ** i) * (c ** j)
@@ -76,6 +80,8 @@ def poly_grad_bound(p, row, col):
 
 def effective_class(p):
     """class by the terms actually present (coefficients may have been dropped)"""
+    if p.get('patch'):
+        return 'generic'      # node values overridden: no analytic expectation between nodes
     mi = max([t[0] for t in p['terms'] if t[2]] + [0])
     mj = max([t[1] for t in p['terms'] if t[2]] + [0])
     if mi <= 1 and mj <= 1:
@@ -230,7 +236,29 @@ def gen_spec(rng):
             classes = [rng.choice(FIELD_CLASSES), rng.choice(FIELD_CLASSES), 'zero', 'zero']   # accuracies not supplied
         else:
             classes = [rng.choice(FIELD_CLASSES) for _ in range(4)]
-        fields.append([gen_poly(rng, c, sg['nrow'], sg['ncol']) for c in classes])
+        fl = [gen_poly(rng, c, sg['nrow'], sg['ncol']) for c in classes]
+        k2 = rng.random()
+        if k2 < 0.08:
+            # sentinel values: the two accuracy fields are -1.0 ("not available") / 0.0 at a few nodes
+            nodes = [(rng.randrange(sg['nrow']), rng.randrange(sg['ncol'])) for _ in range(rng.randrange(1, 5))]
+            v = rng.choice([-1.0, -1.0, 0.0])
+            for f in (fl[2], fl[3]):
+                f['patch'] = [[r_, c_, v] for (r_, c_) in nodes]
+        elif k2 < 0.16 and sg['nrow'] >= 4 and sg['ncol'] >= 4:
+            # every field has equal values at the four corners of ONE cell without being constant there:
+            # parabolas with their vertex on the cell centre, a*(r-i)(r-i-1) + b*(c-j)(c-j-1) + const
+            i, j = rng.randrange(0, sg['nrow'] - 1), rng.randrange(0, sg['ncol'] - 1)
+            sg['flat_cell'] = [i, j]
+            for n in range(4):
+                a, b, c0 = rng.randrange(-8, 9), rng.randrange(-8, 9), rng.randrange(-64, 65)
+                if n < 2 and a == 0 and b == 0:
+                    a = 3
+                if n >= 2 and rng.random() < 0.5:
+                    a = b = 0
+                fl[n] = {'cls': 'biquadratic', 'k': 6, 'terms': [[0, 0, 64 * (a * i * (i + 1) + b * j * (j + 1)) + c0],
+                                                                   [1, 0, -64 * a * (2 * i + 1)], [2, 0, 64 * a],
+                                                                   [0, 1, -64 * b * (2 * j + 1)], [0, 2, 64 * b]]}
+        fields.append(fl)
         sg['created'] = '%02d%02d%04d' % (rng.randrange(1, 29), rng.randrange(1, 13), rng.randrange(1990, 2031))
         sg['updated'] = '%02d%02d%04d' % (rng.randrange(1, 29), rng.randrange(1, 13), rng.randrange(1990, 2031))
     header = {'gs_type': 'SECONDS', 'version': rng.choice(['NTv2.0', 'NTv2.1']),
@@ -446,6 +474,11 @@ class C17(CheckBase):
             cls = rng.choice(['node', 'edge', 'interior', 'interior', 'ring', 'ring', 'ring', 'corner',
                               'just-inside', 'just-outside', 'far', 'ulp-inside'])
             lat, lon = self._position(rng, sg, cls)
+            if sg.get('flat_cell') and rng.random() < 0.3:
+                fi, fj = sg['flat_cell']
+                lat = (sg['s_lat'] + (fi + self._frac(rng)) * sg['lat_inc']) / 3600
+                lon = -(sg['e_long'] + (fj + self._frac(rng)) * sg['long_inc']) / 3600
+                cls = 'flat-cell'
             method = rng.choice(['bicubic', 'bicubic', 'bilinear'])
             if rng.random() < 0.2:
                 ops.append({'id': j, 'kind': 'tf', 'lat': lat, 'lon': lon, 'method': method, 'fwd': rng.random() < 0.5,
